@@ -1230,6 +1230,8 @@ def judge_accept(run, p: Params, out: Outcome) -> bool:
             # $Number$ addressing after hundreds of loops of a track whose own duration differs from the reference:
             # number x @duration and the served (accumulated) decode time have drifted apart by a segment
             sig += "/loops>=500"
+        if "Missing segment" in e.msg and p.degenerate_depth():
+            sig += "/degenerate-depth"
         if "Sequence number error" in e.msg and p.mup_s and p.tsbd_s and p.mup_s > p.tsbd_s:
             # the refreshed manifest no longer overlaps the previous one: segments were skipped between the two
             sig += "/mup>depth"
@@ -1249,7 +1251,9 @@ def judge_accept(run, p: Params, out: Outcome) -> bool:
             out.trivial = "degenerate-depth-no-termination"
             return False
         kind = p.stream if p.stream in ("bbb", "tears") else "synthetic"
-        narrow = "/seg>depth/2" if (p.tsbd_s and p.max_seg_s > p.tsbd_s / 2) else ""
+        # the validator only reads segments inside [now - depth + segment, now - segment]: narrower than one
+        # segment when depth < 3 segments
+        narrow = "/depth<3seg" if (p.tsbd_s and p.tsbd_s < 3 * p.max_seg_s) else ""
         out.fail(f"accept/does-not-terminate/{p.mode}@{kind}/{p.case['template']}{narrow}", f"{where}: {run.abort or 'not finished'} after {run.iterations} "
                  f"iterations, {run.refreshes} refreshes, {len(run.fetches)} requests, slept {run.slept:.1f}s "
                  f"(minimumUpdatePeriod {p.mup_s}, timeShiftBufferDepth {p.tsbd_s}, segment {p.seg_s}s)")
